@@ -162,6 +162,11 @@ impl G<'_, '_> {
                 let b = self.fresh();
                 Expr::some(mk2(k, Expr::func("lp", a), Expr::func("lp", b)))
             }
+            15 if self.d.below(3) == 0 => {
+                // an unregistered function: its argument is still evaluated (once), then the call fails
+                let a = self.bool_expr(depth - 1);
+                Expr::some(Expr::func("nofn", Expr::Vec(vec![a])))
+            }
             _ => {
                 let a = self.bool_expr(depth - 1);
                 Expr::some(Expr::index(Expr::Vec(vec![a]), Index::Vec(0)))
@@ -199,6 +204,10 @@ pub fn check(case: &EvalCase) -> Verdict {
         Actual::Panic(p) => return Err(Issue::new("lazy:panic", format!("panic {p}; case {}", case.render()))),
         Actual::Pending => return Err(Issue::new("lazy:pending", format!("pending; case {}", case.render()))),
     };
+    if matches!(o.model, Err(me::MErr::Ambiguous)) {
+        // (an unknown function whose argument also fails: which error comes first, and hence how far evaluation got, is open)
+        return Ok(());
+    }
     if o.log != o.model_log {
         return Err(Issue::new(
             format!("lazy:call-log:{}", root_sig(&case.expr)),
@@ -313,6 +322,9 @@ fn family() -> Vec<EvalCase> {
     // identical non-cacheable operands of == / != are both evaluated
     out.push(mk_case(Expr::eq(Expr::func("lp", Expr::value(7)), Expr::func("lp", Expr::value(7)))));
     out.push(mk_case(Expr::neq(Expr::func("lp", Expr::value(7)), Expr::func("lp", Expr::value(7)))));
+    // calls of an unregistered function: the argument is evaluated, then the call fails naming the function
+    out.push(mk_case(Expr::func("nofn", Expr::func("lp", fresh()))));
+    out.push(mk_case(Expr::Vec(vec![Expr::func("lp", fresh()), Expr::func("nofn", Expr::Vec(vec![Expr::func("lp", fresh()), Expr::func("lp", fresh())])), Expr::func("lp", fresh())])));
     // nested call arguments
     out.push(mk_case(Expr::func("lp", Expr::func("lp", fresh()))));
     out.push(mk_case(Expr::func("lp", Expr::func("fp", fresh()))));
